@@ -1,4 +1,4 @@
-import QclibModel.Proofs.RotLaws
+import QclibModel.Proofs.SemLemmas
 import QclibModel.Spec.Pqm
 import Mathlib.Algebra.Group.Basic
 import Mathlib.Tactic.Ring
@@ -15,82 +15,6 @@ open RotSem
 
 section Helpers
 variable {Θ R : Type} [CommRing R] [RotSem Θ R]
-
-/-! ### Labels -/
-
-theorem setBit_eq (b : Bits) (q : Nat) (v : Bool) : setBit b q v q = v := by simp [setBit]
-
-theorem setBit_ne (b : Bits) {q i : Nat} (v : Bool) (h : i ≠ q) : setBit b q v i = b i := by
-  simp [setBit, h]
-
-theorem setBit_setBit (b : Bits) (q : Nat) (v v' : Bool) :
-    setBit (setBit b q v) q v' = setBit b q v' := by
-  funext i; by_cases h : i = q <;> simp [setBit, h]
-
-theorem setBit_self (b : Bits) (q : Nat) : setBit b q (b q) = b := by
-  funext i; by_cases h : i = q <;> simp [setBit, h]
-
-theorem setBit_not (b : Bits) (q : Nat) : setBit b q (!b q) = flipBit b q := by
-  funext i; by_cases h : i = q <;> simp [setBit, flipBit, h]
-
-theorem flipBit_eq (b : Bits) (q : Nat) : flipBit b q q = !b q := by simp [flipBit]
-
-theorem flipBit_ne (b : Bits) {q i : Nat} (h : i ≠ q) : flipBit b q i = b i := by
-  simp [flipBit, h]
-
-theorem flipBit_flipBit (b : Bits) (q : Nat) : flipBit (flipBit b q) q = b := by
-  funext i; by_cases h : i = q <;> simp [flipBit, h]
-
-/-! ### `sem` on lists -/
-
-theorem sem_append (c1 c2 : Circ Θ) (ψ : State R) :
-    sem (c1 ++ c2) ψ = sem c2 (sem c1 ψ) := by
-  simp [sem, List.foldl_append]
-
-theorem sem_nil (ψ : State R) : sem ([] : Circ Θ) ψ = ψ := rfl
-
-theorem sem_single (g : G Θ) (ψ : State R) : sem [g] ψ = denote g ψ := rfl
-
-/-! ### Single gates -/
-
-theorem denote_x (q : Nat) (ψ : State R) (b : Bits) :
-    denote (G.x q : G Θ) ψ b = ψ (flipBit b q) := by
-  rw [← setBit_not]
-  simp only [denote, applyMcu, ctrlOk, List.all_nil, Mat2.X]
-  cases h : b q <;> simp
-
-theorem denote_cx (c t : Nat) (ψ : State R) (b : Bits) :
-    denote (G.cx c t : G Θ) ψ b = if b c then ψ (flipBit b t) else ψ b := by
-  rw [← setBit_not]
-  simp only [denote, applyMcu, ctrlOk, Mat2.X]
-  cases hc : b c <;> cases h : b t <;> simp [hc]
-
-theorem denote_p (θ : Θ) (q : Nat) (ψ : State R) (b : Bits) :
-    denote (G.p θ q) ψ b = (if b q then ex θ * ex θ else 1) * ψ b := by
-  simp only [denote, applyMcu, ctrlOk, List.all_nil, matP]
-  cases h : b q
-  · have : setBit b q false = b := by rw [← h, setBit_self]
-    simp [this]
-  · have : setBit b q true = b := by rw [← h, setBit_self]
-    simp [this]
-
-theorem denote_cp (θ : Θ) (c t : Nat) (ψ : State R) (b : Bits) :
-    denote (G.cp θ c t) ψ b
-      = (if b t then (if b c then ex θ * ex θ else 1) else 1) * ψ b := by
-  simp only [denote, applyMcu, ctrlOk, matP]
-  cases hc : b c
-  · simp [hc]
-  · cases h : b t
-    · have : setBit b t false = b := by rw [← h, setBit_self]
-      simp [hc, this]
-    · have : setBit b t true = b := by rw [← h, setBit_self]
-      simp [hc, this]
-
-theorem denote_h (q : Nat) (ψ : State R) (b : Bits) :
-    denote (G.h q : G Θ) ψ b
-      = if b q then rh Θ * ψ (setBit b q false) + -(rh Θ) * ψ (setBit b q true)
-        else rh Θ * ψ (setBit b q false) + rh Θ * ψ (setBit b q true) := by
-  simp [denote, applyMcu, ctrlOk, matH]
 
 /-! ### Diagonal layers -/
 
